@@ -317,7 +317,11 @@ func (c *Config) validate() error {
 	// default MaxCommittedSizePerReady to MaxSizePerMsg because they were
 	// previously the same parameter.
 	if c.MaxCommittedSizePerReady == 0 {
-		c.MaxCommittedSizePerReady = c.MaxSizePerMsg
+		// A MaxSizePerMsg of 0 means "at most one entry per message". As a
+		// budget for applying entries that is one byte: every Ready then
+		// carries at least (and at most) one entry. A budget of zero bytes
+		// would trip the "not positive" assertion on the first committed entry.
+		c.MaxCommittedSizePerReady = max(c.MaxSizePerMsg, 1)
 	}
 
 	if c.MaxInflightMsgs <= 0 {
